@@ -161,6 +161,13 @@ int main(int argc, char **argv) {
                 request((uint8_t)type, size, (uint16_t)o4[oi], seqs[si], (uint8_t)tos, br, NULL, known);
             }
         }
+        /* every 16-bit sequence number (0 = never answered) for each large property, first and inner chunk, both services */
+        if (A.mtu == 576 || vf_thorough()) for (int ti = 0; ti < 3; ti++) for (int oi = 0; oi < 2; oi++) for (int br = 0; br < 2; br++) {
+            static const uint8_t ty[3] = {0x0E, 0x11, 0x13};
+            vf_world_reset(); set_blob(0x0E, 3000); set_blob(0x11, 3000); set_blob(0x13, 40);
+            size_t size = ty[ti] == 0x13 ? 40 : 3000;
+            for (int seq = 0; seq < 65536; seq++) request(ty[ti], size, (uint16_t)(oi ? size / 2 : 0), (uint16_t)seq, (uint8_t)((seq >> 3) & 1), br, NULL, 1);
+        }
         /* two stations: M2 is the active mapper (accepted Discover, own sequence numbers), then M1 requests a
          * large property: the response must carry THIS request's sequence number and the platform's bytes */
         for (int type_i = 0; type_i < 3; type_i++) for (int via = 0; via < 3; via++) for (int tos = 0; tos < 2; tos++) {
@@ -173,7 +180,7 @@ int main(int argc, char **argv) {
             pre_code = 0;
         }
         vf_sample("icon/friendly name: %zu sizes (0..3, k*P-2..k*P+2, 32766..32768; P=%zu) x boundary offsets, ToS 0/1, direct/bridged; reassembly for each size", ns, P);
-        vf_sample("hardware id: every even size 0..64 x offsets; all 256 property types x 4 offsets x 2 ToS x seq{0,1,0xFFFF} x direct/bridged");
+        vf_sample("hardware id: every even size 0..64 x offsets; all 256 property types x 4 offsets x 2 ToS x seq{0,1,0xFFFF} x direct/bridged; every sequence number 0..65535 x 3 properties x {first, inner chunk} x direct/bridged");
         R.exhaustive = 1;
     }
     R.evaluations = evals; R.wall_s = vf_now_s() - t0;
